@@ -10,6 +10,7 @@
     real classes and the recorded answers validated by Trace_Geometry.tla.
 """
 import json
+import math
 import os
 import random
 
@@ -237,6 +238,61 @@ def _st_to_polygon(rec, st, j):
     replay_to_polygon(rec, rnd, st, -12, 12, j)
 
 
+def regular_polygons(ctx, rnd):
+    """RegPoly.tla: vertex k of a regular n-gon lies at distance r from the centre in the direction 90 + a + 360 k / n degrees (exact, in
+    units of 1/n degree); the region answers membership as the n-gon with those vertices (half-plane definition, computed here
+    independently of the library's polygon code)."""
+    import astropy.units as u
+    from regions import PixCoord, RegularPolygonPixelRegion
+    res = tlc.run('RegPoly', cfg='RegPoly.cfg', dump=True, tag='c01rp')
+    ctx.tlc(res, 'RegPoly: vertex directions of regular polygons, n-fold symmetry')
+    if res.violated:
+        ctx.violation(f'C01|model|{res.violated}', f'RegPoly.tla: invariant {res.violated} fails in the model', {'trace': res.trace})
+        tlc.cleanup(res.workdir)
+        return
+    n_st = 0
+    for st in parse_dump(res.dump_path, only='pc = "ret"'):
+        n, a, vs = st['n'], st['a'], list(st['vs'])
+        n_st += 1
+        cx, cy = rnd.choice([(0.0, 0.0), (12.5, -3.25), (1000.0, 77.0)])
+        r = rnd.choice([1.0, 4.0, 7.5, 0.25])
+        ang = [a * u.deg, math.radians(a) * u.rad, (a * 60.0) * u.arcmin][n_st % 3]
+        case = {'nvertices': n, 'angle_deg': a, 'centre': [cx, cy], 'radius': r, 'angle_given_as': str(ang.unit)}
+        ctx.case(('regpoly', n, a), True)
+        try:
+            reg = RegularPolygonPixelRegion(PixCoord(cx, cy), n, r, angle=ang)
+            vx, vy = np.asarray(reg.vertices.x, dtype=float), np.asarray(reg.vertices.y, dtype=float)
+        except Exception as ex:  # noqa
+            ctx.violation(f'C01|regpoly|raises|{type(ex).__name__}', f'constructing a regular {n}-gon raised {ex!r}', case)
+            continue
+        want = np.radians(np.array(vs, dtype=float) / n)
+        wx, wy = cx + r * np.cos(want), cy + r * np.sin(want)
+        if len(vx) != n or not (np.allclose(vx, wx, rtol=0, atol=1e-9 * max(r, 1.0) + 1e-12 * abs(cx)) and np.allclose(vy, wy, rtol=0, atol=1e-9 * max(r, 1.0) + 1e-12 * abs(cy))):
+            ctx.violation('C01|regpoly|vertices', f'the vertices of a regular {n}-gon rotated by {a} deg are not at 90 + a + 360 k / n degrees on the circumcircle',
+                          dict(case, real=[vx.tolist(), vy.tolist()], model_directions_deg=[v / n for v in vs]))
+            continue
+        # membership on a grid over the circumscribed square: inside iff on the inner side of all n edges (edge normals half a step from the vertices)
+        g = np.linspace(-1.2, 1.2, 41)
+        gx, gy = [v.ravel() for v in np.meshgrid(g * r, g * r)]
+        nrm = np.radians((np.array(vs, dtype=float) + 180.0) / n)
+        dist = np.max(np.outer(gx, np.cos(nrm)) + np.outer(gy, np.sin(nrm)), axis=1) - r * math.cos(math.pi / n)
+        care = np.abs(dist) > 1e-9 * r
+        try:
+            got = np.asarray(reg.contains(PixCoord(gx + cx, gy + cy)))
+        except Exception as ex:  # noqa
+            ctx.violation(f'C01|regpoly|contains|{type(ex).__name__}', f'contains raised {ex!r}', case)
+            continue
+        ctx.dontcare += int((~care).sum())
+        bad = care & (got != (dist < 0))
+        if bad.any():
+            i = int(np.nonzero(bad)[0][0])
+            ctx.violation('C01|regpoly|member', f'{int(bad.sum())} of {int(care.sum())} positions answered differently from the regular {n}-gon',
+                          dict(case, position=[float(gx[i] + cx), float(gy[i] + cy)], says=bool(got[i])))
+    ctx.traces += n_st
+    ctx.note('regular_polygon_states', n_st)
+    tlc.cleanup(res.workdir)
+
+
 def run(ctx):
     quick = ctx.tier == 'quick'
     rnd = random.Random(ctx.seed * 1000003 + 1)
@@ -270,6 +326,7 @@ def run(ctx):
         n = ctx.traces - before
         ctx.note('replayed_to_polygon', n)
     tlc.cleanup(res.workdir)
+    regular_polygons(ctx, rnd)
     trace_validation(ctx, rnd)
     ctx.assumptions += ['rotation angles are the 44 rational directions; sizes and centres dyadic',
                         'EDGE points (exact equality or within 2^-20 relative) are not compared']
